@@ -477,10 +477,12 @@ func (c *ExecCtx) execGo(st *State, x *ast.GoStmt) {
 	if lit, ok := ast.Unparen(call.Fun).(*ast.FuncLit); ok {
 		sig := c.typeOf(lit).(*types.Signature)
 		args := c.evalArgs(st, call, sig, nil)
+		acknowledged := false
 		if spec := c.ownSpec(); spec != nil {
 			for _, g := range spec.Ghosts {
 				if g.Anchor == "go(func)" {
 					g.used = true
+					acknowledged = true
 					binds := map[string]Val{}
 					for i, a := range args {
 						binds[fmt.Sprintf("ʃarg%d", i)] = a
@@ -489,6 +491,7 @@ func (c *ExecCtx) execGo(st *State, x *ast.GoStmt) {
 				}
 			}
 		}
+		c.goLedger(st, acknowledged, "func literal", x.Pos())
 		c.spawnLit(st, lit, "go", x.Pos())
 		return
 	}
@@ -502,10 +505,13 @@ func (c *ExecCtx) execGo(st *State, x *ast.GoStmt) {
 			}
 			args := c.evalArgs(st, call, sig, nil)
 			// ghost anchors "go(name)"
+			acknowledged := false
+			defer func() { c.goLedger(st, acknowledged, calleeName(call), x.Pos()) }()
 			if spec := c.ownSpec(); spec != nil {
 				name := calleeName(call)
 				for _, g := range spec.Ghosts {
 					if g.Anchor == "go("+name+")" {
+						acknowledged = true
 						g.used = true
 						binds := map[string]Val{}
 						for i, a := range args {
@@ -518,6 +524,21 @@ func (c *ExecCtx) execGo(st *State, x *ast.GoStmt) {
 		}
 	}
 	c.u.eng.abstracted["go:"+exprString(call.Fun)] = true
+}
+
+// goLedger: in checks that keep a goroutine ledger (props/<ID>.json
+// "go_ledger": true) every go statement of a unit under contract must be
+// acknowledged by a `ghost at go(...)` anchor of that contract - a goroutine
+// the contract does not know about is not on the shutdown ledger.
+func (c *ExecCtx) goLedger(st *State, acknowledged bool, what string, pos token.Pos) {
+	u := c.u
+	if !u.eng.goLedgerOn || u.quiet > 0 || acknowledged {
+		return
+	}
+	if c.ownSpec() == nil {
+		return // inlined contract-less code: not a ledger unit
+	}
+	u.obligeStatic(st, "ledger", false, pos, "goroutine ("+what+") started without being accounted for in the contract (no `ghost at go(...)` anchor)")
 }
 
 // spawnLit: a goroutine body is not executed here; variables it assigns
@@ -689,6 +710,16 @@ func (c *ExecCtx) recvValue(st *State, ch Val, chExpr ast.Expr, pos token.Pos) V
 // operand of send / receive / range (never closed, passed on, stored or
 // aliased). A receive from it never observes a closed channel.
 func (c *ExecCtx) chanNeverClosed(e ast.Expr) bool {
+	if se, isSel := ast.Unparen(e).(*ast.SelectorExpr); isSel {
+		// a channel-typed struct field that no loaded package ever closes,
+		// passes on or copies: a receive from it never observes "closed"
+		if sel, ok := c.info.Selections[se]; ok && sel.Kind() == types.FieldVal {
+			if f, ok := sel.Obj().(*types.Var); ok {
+				return c.u.eng.fieldChanNeverClosed(f)
+			}
+		}
+		return false
+	}
 	id, ok := ast.Unparen(e).(*ast.Ident)
 	if !ok {
 		return false
@@ -749,6 +780,66 @@ func (c *ExecCtx) chanNeverClosed(e ast.Expr) bool {
 		return true
 	})
 	return okAll && made
+}
+
+// fieldChanNeverClosed: module-wide syntactic scan (cached): field f (of
+// channel type) is used only as the operand of send / receive / range, in
+// make-assignments and composite literals - never closed, copied or passed on.
+func (e *Engine) fieldChanNeverClosed(f *types.Var) bool {
+	if e.chanFieldEscapes == nil {
+		e.chanFieldEscapes = map[*types.Var]bool{}
+		for _, p := range e.pkgs {
+			info := p.TypesInfo
+			for _, file := range p.Syntax {
+				var stack []ast.Node
+				ast.Inspect(file, func(n ast.Node) bool {
+					if n == nil {
+						stack = stack[:len(stack)-1]
+						return true
+					}
+					stack = append(stack, n)
+					se, ok := n.(*ast.SelectorExpr)
+					if !ok || len(stack) < 2 {
+						return true
+					}
+					sel, ok := info.Selections[se]
+					if !ok || sel.Kind() != types.FieldVal {
+						return true
+					}
+					fv, ok := sel.Obj().(*types.Var)
+					if !ok {
+						return true
+					}
+					if _, isChan := unalias(fv.Type()).Underlying().(*types.Chan); !isChan {
+						return true
+					}
+					switch par := stack[len(stack)-2].(type) {
+					case *ast.UnaryExpr:
+						if par.Op == token.ARROW {
+							return true
+						}
+					case *ast.SendStmt:
+						if par.Chan == n {
+							return true
+						}
+					case *ast.RangeStmt:
+						if par.X == n {
+							return true
+						}
+					case *ast.AssignStmt:
+						for _, l := range par.Lhs {
+							if l == n {
+								return true // the field is assigned (e.g. = make(chan ...))
+							}
+						}
+					}
+					e.chanFieldEscapes[fv] = true
+					return true
+				})
+			}
+		}
+	}
+	return !e.chanFieldEscapes[f]
 }
 
 func (c *ExecCtx) evalRecv(st *State, x *ast.UnaryExpr, commaOk bool) []Val {
